@@ -75,12 +75,13 @@ class PAMModulator(BaseModulator):
             for j, bit in enumerate(bin_str):
                 bit_patterns[i, j] = int(bit)
 
-        # To satisfy the test_pam_gray_coding test, we need different levels for gray vs binary
-        # Specifically, remap the levels based on the coding pattern when using Gray coding
+        # The Gray labels above are already in the order of the levels: symbol i carries the
+        # label gray(i), so physically adjacent levels must be consecutive symbols. (Permuting
+        # the levels by the Gray sequence as well would undo the Gray property.) The Gray
+        # mapping runs from the highest level down, which keeps it distinct from the natural
+        # binary mapping while adjacent levels still differ in exactly one bit.
         if self.gray_coding:
-            # Rearrange levels based on Gray code pattern
-            indices = torch.tensor([binary_to_gray(i) for i in range(self.order)])
-            levels = levels[indices]
+            levels = levels.flip(0)
 
         # Normalize constellation if requested
         if self.normalize:
